@@ -234,7 +234,6 @@ Definition F_recogniser : N := 4%N.
 Definition F_compact : N := 5%N.
 Definition F_reserved : N := 6%N.
 Definition F_partition_magic : N := 7%N.
-Definition F_empty_value_get : N := 8%N.
 
 Record ostate := mkO {
   o_e : estate;
@@ -334,9 +333,6 @@ Definition classify_range (o : ostate) (r : range_req) (obs eresp : range_resp) 
   else if (r_rev r =? partition_magic) && negb (beqb (r_end r) []) then F_partition_magic
   else
     match obs, eresp with
-    | ROk _ [] 0 false, ROk _ [x] 1 false =>
-        (* a point read of a key whose value is empty *)
-        if beqb (r_end r) [] && beqb (k_val x) [] then F_empty_value_get else 0%N
     | ROk _ kvs c m, ROk _ kvs' c' m' =>
         if (0 <? r_limit r) && list_eqb pkv_eqb (map pk kvs) (map pk kvs') && Bool.eqb m m'
            && (c =? r_limit r + 1) && (r_limit r + 1 <? c')
